@@ -78,7 +78,7 @@ static const fstate_t state_INIT = /*@EXPR state_init*/;
   || (SAME_BUT_OP(o, n) && (o).op_ && !(n).op_ && (IS_R((o).state_) ? (!(o).evt_ && (o).result_ == RK_OF((o).state_)) : ((o).state_ == FS_abandoned || (o).state_ == FS_complete))) /* destruct_op() */ \
   || (SAME_BUT_EVT(o, n) && !(o).evt_ && (n).evt_ == 1 && IS_R((o).state_) && !(o).op_ && (o).result_ == RK_OF((o).state_)) /* evt_.set(): publish */ \
   || (SAME_BUT_STATE(o, n) && (o).state_ == FS_abandoned && (n).state_ == FS_complete && !(o).op_) )              /* negotiate: hand over to the future */
-#define GUAR_DROP(o, n) (SAME_BUT_STATE(o, n) && (o).state_ == FS_init && (n).state_ == FS_complete)
+#define GUAR_DROP(o, n) (SAME_BUT_STATE(o, n) && (n).state_ == FS_complete && ((o).state_ == FS_init || ((o).state_ == FS_abandoned && (o).evt_)))   /* hand over to the operation */
 #define GUAR_K(o, n) ( (SAME_BUT_STATE(o, n) && (o).state_ == FS_init && (n).state_ == FS_abandoned) \
   || (SAME_BUT_EVT(o, n) && (n).evt_ == 1 && ((o).state_ == FS_abandoned || (o).state_ == FS_complete)) )
 #define GUAR_CONT(o, n) (SAME_BUT_STATE(o, n) && (o).evt_ && (o).state_ == FS_abandoned && (n).state_ == FS_complete)
@@ -94,8 +94,9 @@ static const fstate_t state_INIT = /*@EXPR state_init*/;
   && ((o).evt_ ==> SAME(o, n)) \
   && ((n).state_ == (o).state_ || ((o).state_ == FS_init && IS_R((n).state_)) || (MAY_THROW && (o).state_ == FS_value && (n).state_ == FS_error)) \
   && ((n).evt_ ==> IS_R((n).state_)) && (IS_R((o).state_) ==> ((o).result_ == RK_NONE || (n).result_ == (o).result_)) )
-/* F in drop() (env: O only) */
-#define RELY_DROP(o, n) RELY_ENV_O(o, n)
+/* F in drop() (env: O only; a stop callback, if the future was connected, has been deregistered, i.e. has finished).
+ * Found abandoned / complete (connected, cancelled, destroyed unstarted): as for the continuation */
+#define RELY_DROP(o, n) (((o).state_ == FS_abandoned || (o).state_ == FS_complete) ? RELY_CONT(o, n) : RELY_ENV_O(o, n))
 /* K in abandon() (env: O; F is parked on evt_): as for drop, and after my init -> abandoned O may negotiate abandoned -> complete */
 #define RELY_K(o, n) ( ((o).state_ == FS_abandoned || (o).state_ == FS_complete) \
   ? ((n).evt_ == (o).evt_ && (n).result_ == (o).result_ && (n).op_ <= (o).op_ && ((n).state_ == (o).state_ || ((o).state_ == FS_abandoned && (n).state_ == FS_complete && !(n).op_))) \
@@ -278,7 +279,9 @@ static void EV_construct_error(struct sfo* op) {
 
 /* states in which each party may find the object when it starts */
 #define PRE_O(s)    (INV(s) && (s).op_ && (s).result_ == RK_NONE && ((s).state_ == FS_init || (s).state_ == FS_abandoned || (s).state_ == FS_complete))
-#define PRE_DROP(s) (INV(s) && ((s).state_ == FS_init || IS_R((s).state_)))
+#define PRE_DROP(s) (INV(s) && ((s).state_ == FS_init || IS_R((s).state_) \
+  || ((s).state_ == FS_abandoned && (s).evt_)                   /* connected, abandon() ran to its end, destroyed unstarted */ \
+  || ((s).state_ == FS_complete && (s).evt_ && !(s).op_)))       /* ... and the operation has already negotiated (after destruct_op) */
 #define PRE_K(s)    (INV(s) && ((s).state_ == FS_init || IS_R((s).state_)))
 #define PRE_CONT(s) (INV(s) && (s).evt_ && (s).state_ != FS_init && (((s).state_ == FS_complete) ==> !(s).op_))
 
@@ -304,15 +307,20 @@ static void EV_construct_error(struct sfo* op) {
      && (g).t_lin < (g).t_store && (g).t_store < (g).t_destruct && (g).t_destruct < (g).t_evt && (g).deleter_calls == 0 && (g).stop_requests == 0 && (g).yields == 0 && (g).dead) \
   : (((g).seen0 == FS_abandoned || (g).seen0 == FS_complete) && NEG_POST(g, (g).seen0, 1u))) )
 
-/* drop(): init => request stop, then CAS init -> complete (operation deletes) | lost => wait evt_, delete;  result => wait evt_, delete */
-#define DROP_ATOMICS(seen0) ((seen0) == FS_init ? 2u : 1u)
-#define DROP_POST(g) ( (g).atomics >= DROP_ATOMICS((g).seen0) && (g).atomics <= DROP_ATOMICS((g).seen0) + ((g).lin_count == 0 ? 1u : 0u) /* (a re-load after the wait is fine) */ \
-  && LIN_WF(g) && ((g).seen0 == FS_init || IS_R((g).seen0)) \
+/* drop(): init => request stop, then CAS init -> complete (operation deletes) | lost => wait evt_, delete;  result => wait evt_, delete;
+ * abandoned (connected, cancelled, never started) => CAS abandoned -> complete (operation deletes) | lost => delete;  complete => delete */
+#define DROP_ATOMICS(seen0) (((seen0) == FS_init || (seen0) == FS_abandoned) ? 2u : 1u)
+#define DROP_RESULT_PATH(g) ((g).seen0 == FS_init || IS_R((g).seen0))
+#define DROP_POST(g) ( (g).atomics >= DROP_ATOMICS((g).seen0) \
+  && (g).atomics <= DROP_ATOMICS((g).seen0) + (((g).lin_count == 0 && DROP_RESULT_PATH(g)) ? 1u : 0u) /* (a re-load after the evt_ wait) */ \
+  && LIN_WF(g) && ((g).seen0 == FS_init || IS_R((g).seen0) || (g).seen0 == FS_abandoned || (g).seen0 == FS_complete) \
   && ((g).stop_requests == 1) == ((g).seen0 == FS_init) && (g).stop_requests <= 1 \
   && ((g).seen0 == FS_init ==> (((g).lin_count == 1) == ((g).seen1 == FS_init) && ((g).lin_count == 0 ==> IS_R((g).seen1)))) \
-  && ((g).seen0 != FS_init ==> (g).lin_count == 0) \
-  && ((g).lin_count == 1 ==> ((g).lin_new == FS_complete && (g).deleter_calls == 0 && (g).t_stop < (g).t_lin)) \
-  && ((g).lin_count == 0 ==> ((g).deleter_calls == 1 && (g).deleter_arg == (g).state_at_delete && IS_R((g).deleter_arg) && (g).ready_seen && (g).t_ready < (g).t_deleter)) /* deletes with the state the object is in THEN */ \
+  && ((g).seen0 == FS_abandoned ==> (((g).lin_count == 1) == ((g).seen1 == FS_abandoned) && ((g).lin_count == 0 ==> (g).seen1 == FS_complete))) \
+  && (((g).seen0 != FS_init && (g).seen0 != FS_abandoned) ==> (g).lin_count == 0) \
+  && ((g).lin_count == 1 ==> ((g).lin_new == FS_complete && (g).deleter_calls == 0 && ((g).seen0 == FS_init ==> (g).t_stop < (g).t_lin))) \
+  && ((g).lin_count == 0 ==> ((g).deleter_calls == 1 && (g).deleter_arg == (g).state_at_delete /* deletes with the state the object is in THEN */ \
+        && (DROP_RESULT_PATH(g) ? (IS_R((g).deleter_arg) && (g).ready_seen && (g).t_ready < (g).t_deleter) : (g).deleter_arg == FS_complete))) \
   && (g).dead && (g).stores == 0 && (g).destructs == 0 && (g).evt_sets == 0 && (g).yields == 0 )
 
 /* continuation: load; abandoned => CAS abandoned -> complete (won: operation deletes; lost: delete) and done;
@@ -426,7 +434,10 @@ void h_complete(void) {
 }
 void h_drop(void) {
   h_init(P_DROP); sfo_drop(&S); VF_CANARY("after drop");
-  if (G.lin_count) { VF_CANARY("drop can hand over"); } else if (G.atomics == 2) { VF_CANARY("drop can lose the race and delete"); } else { VF_CANARY("drop after completion deletes"); }
+  if (G.seen0 == FS_init) { if (G.lin_count) { VF_CANARY("drop can hand over"); } else { VF_CANARY("drop can lose the race and delete"); } }
+  else if (G.seen0 == FS_abandoned) { if (G.lin_count) { VF_CANARY("drop of an abandoned operation can hand over"); } else { VF_CANARY("drop of an abandoned operation can lose the race and delete"); } }
+  else if (G.seen0 == FS_complete) { VF_CANARY("drop can find complete and delete"); }
+  else { VF_CANARY("drop after completion deletes"); }
 }
 void h_continuation(void) {
   h_init(P_CONT); int r = future_continuation(&FUT); VF_CANARY("after continuation");
@@ -461,7 +472,7 @@ void lemma_init(void) {
 /* (i) every guarantee step of a party is allowed by the rely of every party that is alive at that moment,
  * and preserves the invariant; relies are reflexive and transitive on the states in which their party is alive.
  * ALIVE(p, s): party p may still touch the object in state s (it has not handed over / been superseded):
- *   F dropping: until it wrote complete (no abandoned either: nobody cancels a never-started future);
+ *   F dropping: until it wrote complete; it may find abandoned / complete (connected, cancelled, never started) only after abandon() finished;
  *   K: from init / a result, and after its own init -> abandoned only until it woke the future;
  *   C: once evt_ fired; if it finds complete the operation wrote it (after destructing the nested op). */
 #define ALIVE(p, s) ( INV(s) && ((p) == P_DROP ? PRE_DROP(s) \
@@ -472,7 +483,7 @@ void lemma_rely_guarantee(void) {
   if (VF_nondet_bool()) {
     int a = VF_nondet_int(), b = VF_nondet_int();
     __CPROVER_assume(a >= P_O && a <= P_CONT && b >= P_O && b <= P_CONT && a != b);
-    /* a future is either dropped or started: F-dropping coexists with the operation only */
+    /* a future is either dropped or started, and a dropped one has deregistered its callback: F-dropping coexists with the operation only */
     __CPROVER_assume(!(a == P_DROP && b != P_O) && !(b == P_DROP && a != P_O));
     __CPROVER_assume(INV(o) && ALIVE(b, o) && GUAR(a, o, n));
     VF_CANARY("guarantee step premises satisfiable");
@@ -492,13 +503,13 @@ void lemma_rely_guarantee(void) {
 
 /* (ii) all interleavings of the parties' contract-summarised steps.  Each party's call is cut at its atomic
  * accesses to state_; what an access observes is the global state at that moment; what the call does is whatever
- * its contract (X_POST) allows for these observations.  Finite and acyclic: at most 3 (operation) + 3 (future) + 2 (callback) steps; the bound is checked by the quiescence obligation. */
+ * its contract (X_POST) allows for these observations.  Finite and acyclic: at most 3 (operation) + 4 (future: connect, start, load, CAS) + 2 (callback) steps; the bound is checked by the quiescence obligation. */
 #ifdef VF_STOP_CALLBACK_LIFETIME_AS_CODED
 #define LM_CB_AS_CODED 1
 #define LM_STEPS 10
 #else
 #define LM_CB_AS_CODED 0
-#define LM_STEPS 8
+#define LM_STEPS 9
 #endif
 enum { O_START, O_FUNC, O_PUBLISH, O_NEG, O_DONE };
 enum { F_IDLE, F_CONNECTED, F_DROP1, F_DROPWAIT, F_WAIT, F_CONT1, F_DONE, F_GONE };
@@ -540,12 +551,14 @@ void lemma_interleavings(void) {
     /* enabled steps */
     _Bool o_en = o_pc != O_DONE;
     _Bool f_en = f_pc == F_IDLE || f_pc == F_CONNECTED || f_pc == F_DROP1 || f_pc == F_CONT1 || ((f_pc == F_DROPWAIT || f_pc == F_WAIT) && W.st.evt_) || (LM_CB_AS_CODED && f_pc == F_DONE && f_started);
+    /* the stop callback is registered when the future is CONNECTED (let_value_with builds its state in the operation's constructor)
+     * and deregistered when the future's operation state is destroyed: before drop() for a never-started future ... */
 #if LM_CB_AS_CODED
-    /* as coded: the stop callback is registered when the future is CONNECTED (let_value_with builds its state in the operation's
-     * constructor) and deregistered when the future's operation state is destroyed, i.e. after the continuation has finished */
+    /* ... and, as coded, only AFTER the continuation has finished for a started one */
     _Bool k_en = (k_pc == K_IDLE && f_connected && !f_cb_gone) || k_pc == K_PUBLISH;
 #else
-    _Bool k_en = (k_pc == K_IDLE && f_started && f_pc != F_DONE) || k_pc == K_PUBLISH;   /* assumption: abandon() only while the started future has not finished */
+    /* ... assumption: for a started future abandon() does not run after the continuation has finished */
+    _Bool k_en = (k_pc == K_IDLE && f_connected && !f_cb_gone && f_pc != F_DONE) || k_pc == K_PUBLISH;
 #endif
     if (!(o_en || f_en || k_en)) break;
     int who = VF_nondet_int();
@@ -595,21 +608,22 @@ void lemma_interleavings(void) {
     } else if (who == 1) {
       /* ---- the future ---- */
       if (f_pc == F_DONE) { f_cb_gone = 1; f_pc = F_GONE; }   /* (as coded) the started future's operation state is destroyed: callback deregistered */
-      else if (f_pc == F_IDLE && LM_CB_AS_CODED && VF_nondet_bool()) { f_connected = 1; f_pc = F_CONNECTED; }   /* connected, not yet started */
+      else if (f_pc == F_IDLE && VF_nondet_bool()) { f_connected = 1; f_pc = F_CONNECTED; }   /* connected (callback registered), not yet started */
       else if (f_pc == F_IDLE || f_pc == F_CONNECTED) {
         if (VF_nondet_bool()) {                        /* dropped without being started: drop(), first access */
-          f_cb_gone = 1;                               /* (a connected future deregisters its callback before the handle drops) */
+          __CPROVER_assume(k_pc != K_PUBLISH);         /* a connected future deregisters its callback first, which waits for a running abandon() */
+          f_cb_gone = 1;
           LM_ALIVE("drop()");
           VF_P(PRE_DROP(W.st), "lemma: drop() finds the state its contract requires");
           f_dropped = 1; gf.party = P_DROP; gf.atomics = 1; gf.seen0 = W.st.state_;
-          if (DROP_ATOMICS(gf.seen0) == 2) { W.stop_req = 1; f_pc = F_DROP1; }
+          if (DROP_ATOMICS(gf.seen0) == 2) { if (gf.seen0 == FS_init) W.stop_req = 1; f_pc = F_DROP1; }
           else { gf = lm_outputs(gf); gf.atomics = VF_nondet_u8(); __CPROVER_assume(DROP_POST(gf)); VF_P(gf.deleter_calls == 1 && gf.lin_count == 0, "lemma: drop() after completion deletes"); f_pc = F_DROPWAIT; }
-        } else { f_connected = 1; f_started = 1; f_pc = F_WAIT; }       /* connected and started: parked on evt_ */
+        } else { __CPROVER_assume(f_pc == F_CONNECTED); f_started = 1; f_pc = F_WAIT; }       /* started: parked on evt_ */
       } else if (f_pc == F_DROP1) {                    /* drop(): CAS init -> complete */
         LM_ALIVE("drop()'s CAS");
         gf.atomics = 2; gf.seen1 = W.st.state_;
         gf = lm_outputs(gf); gf.atomics = VF_nondet_u8(); __CPROVER_assume(DROP_POST(gf));
-        VF_P(gf.stop_requests == 1, "lemma: dropping a future whose operation is still running requests stop");
+        VF_P((gf.stop_requests == 1) == (gf.seen0 == FS_init), "lemma: dropping a future whose operation is still running (and was not cancelled already) requests stop");
         if (gf.lin_count == 1) { struct sfo o = W.st; W.st.state_ = gf.lin_new; VF_P(GUAR_DROP(o, W.st), "lemma: drop()'s write is a guarantee step"); f_pc = F_DONE; }
         else { VF_P(gf.deleter_calls == 1, "lemma: drop() deletes when it lost the race"); f_pc = F_DROPWAIT; }
       } else if (f_pc == F_DROPWAIT) {                 /* evt_.ready() became true: delete */
